@@ -631,7 +631,7 @@ func (s *scope) finaliseVarAlloc(stackOffset int) (stashSize, stackSize int) {
 			for scope, aps := range b.accessPoints {
 				var level uint32
 				for sc := scope; sc != nil && sc != s; sc = sc.outer {
-					if sc.needStash || sc.isDynamic() {
+					if sc.hasStash() {
 						level++
 					}
 				}
@@ -721,7 +721,7 @@ func (s *scope) finaliseVarAlloc(stackOffset int) (stashSize, stackSize int) {
 			for scope, aps := range b.accessPoints {
 				var level int
 				for sc := scope; sc != nil && sc != s; sc = sc.outer {
-					if sc.needStash || sc.isDynamic() {
+					if sc.hasStash() {
 						level++
 					}
 				}
@@ -885,6 +885,24 @@ func (s *scope) makeNamesMap() map[unistring.String]uint32 {
 
 func (s *scope) isDynamic() bool {
 	return s.dynLookup || s.dynamic
+}
+
+// hasStash reports whether a stash is created for the scope at run time (and therefore counts as a level
+// when addressing bindings of outer scopes).
+func (s *scope) hasStash() bool {
+	if s.needStash {
+		return true
+	}
+	if s.dynamic {
+		// a 'with' scope, or a variable environment that can be extended by a direct eval
+		return true
+	}
+	if s.dynLookup {
+		// A plain block scope (block, loop head, class body) without any bindings gets no stash even when
+		// it is subject to dynamic lookup, see updateEnterBlock() and enterBlock.exec().
+		return len(s.bindings) > 0 || s.funcType != funcNone || s.variable
+	}
+	return false
 }
 
 func (s *scope) isFunction() bool {
